@@ -899,7 +899,7 @@ def run(ctx):
         "anchor path of superimpose_homologs decided only where the alignment is not needed: no positively scoring residue pair (PosScore = sign of BLOSUM62 on ALA/GLY/SER, bound to the real matrix by the driver) -> fallback, identical sequences -> identity pairing; everything else is 'open' (C08's subject); fewer backbone atoms than min_anchors: 'open' (the code refuses, undocumented)",
         "trusted: TLC, the TLA+ value parser, numpy",
     ]
-    res, states = helpers.dump_states(ctx, "RigidFit", os.environ.get("DEV_C16_CFG") or "MC.cfg" if quick else "MC_thorough.cfg",
+    res, states = helpers.dump_states(ctx, "RigidFit", "MC.cfg" if quick else "MC_thorough.cfg",
                                       workers=16, timeout=900 if quick else 3000)
     ctx.exhaustive = True
     done = [(s["vcase"], s["vout"]) for s in states if s["vout"]]
@@ -954,7 +954,7 @@ def run(ctx):
                    affine_form_den_pairs=len(aff_forms), history_forms=hist_forms, anchor_paths=paths,
                    far_fixed_forms=far_forms, far_mobile_forms=far_mob_forms, far_kinds=far_kinds)
     need = {"ok", "Rejected", "Unspecified", "affine:ok", "affine:Rejected"}
-    if not os.environ.get("DEV_C16_CFG") and (not need <= set(ocs) or set(ranks) != {0, 1, 2, 3} or not (zero and pos and whole)):
+    if not need <= set(ocs) or set(ranks) != {0, 1, 2, 3} or not (zero and pos and whole):
         raise Vacuity(f"families miss an outcome / rank / witness kind: {ocs} {ranks} {zero} {pos} {whole}")
     if set(kinds) != {"fit", "affine", "hist", "anch", "far"}:
         raise Vacuity(f"a family is empty: {kinds}")
